@@ -105,6 +105,10 @@ class CreateTable(ASTNode):
                     col_str += ' NOT NULL'
                 columns.append(col_str)
 
+            keys = [str(col.name) for col in self.columns if col.is_primary_key]
+            if keys:
+                columns.append('PRIMARY KEY ({})'.format(', '.join(keys)))
+
             columns_str = '({})'.format(', '.join(columns))
 
         from_select_str = ''
